@@ -122,6 +122,22 @@ func sortAdvSection(r *tx.Rng, w *tx.W, size int, opt map[string]string) {
 			vals[i] = i % m
 		}
 	}
+	emitSortCase(w, kind, vals)
+	// many short low-cardinality inputs: the partitioning code's handling of runs equal to the pivot depends on exact
+	// counts on either side (ranges of 13..40 rows go through doPivot once or twice)
+	for k := 0; k < 40; k++ {
+		m := 13 + r.Intn(28)
+		card := 2 + r.Intn(3)
+		v := make([]int, m)
+		for i := range v {
+			v[i] = r.Intn(card)
+		}
+		emitSortCase(w, "lowcard", v)
+	}
+}
+
+func emitSortCase(w *tx.W, kind string, vals []int) {
+	n := len(vals)
 	toks := []string{"SA", kind, tx.Int(n)}
 	for _, v := range vals {
 		toks = append(toks, tx.Int(v))
